@@ -241,7 +241,11 @@ def _finder_units():
 
 
 def units():
-    return _rebuild_units() + _chunker_units() + _finder_units()
+    from pyvc.api import borrow
+    from props import c15
+    # comparing two parse modes on the same text presupposes that a parse does not depend on an earlier one: the package-wide frame
+    # 'no store to process-wide state outside the documented ones' (C15's scan) is a callee contract of this property
+    return _rebuild_units() + _chunker_units() + _finder_units() + borrow([c15._scan_unit()], 'C20')
 
 
 # ======================================================================================================================
